@@ -180,6 +180,8 @@ def op_key(op):
 
 def ref_op_for(op, created):
     """The self-contained op whose clean-room result is the reference for `op`."""
+    if op.get("noref"):
+        return None
     if op["op"] == "observe_obj":
         src = created.get(op["obj"])
         if src is None:
@@ -279,6 +281,26 @@ def draw_run(rng, room):
         if sw["env_mode"] == "per_thread":
             env = {"prec": env_rng.choice(PRECS), "rounding": env_rng.choice(ROUNDINGS)}
         actors.append({"env": env, "ops": gen_ops(w, n_ops_each[i], pool, room, sw["p_invalid"])})
+    sw["long_history"] = 0
+    if n_threads == 1 and sw_rng.chance(0.04):
+        # a long history of plain constructions (valid, invalid, siblings) before the probes: what a
+        # bounded cache, an eviction path or an "after N calls" counter would need; the filler ops
+        # carry no reference (only the probes that follow are compared with the clean room)
+        n_fill = sw_rng.choice([150, 300, 700, 1500])
+        sw["long_history"] = n_fill
+        fill = []
+        for _ in range(n_fill):
+            r = w.below(10)
+            if r < 6:
+                version = w.choice(list(spec.VERSIONS))
+                fill.append({"op": "new", "cls": spec.CLASS_OF[version], "s": vectors.valid_vector(w, version, corners=0.05), "noref": True})
+            elif r < 8:
+                cls, how, s_ = w.choice(pool)
+                fill.append({"op": "new" if how == "ctor" else "rh", "cls": cls, "s": s_, "noref": True})
+            else:
+                version = w.choice(list(spec.VERSIONS))
+                fill.append({"op": "new", "cls": spec.CLASS_OF[version], "s": vectors.edit_vector(w, vectors.valid_vector(w, version))[1], "noref": True})
+        actors[0]["ops"] = fill + actors[0]["ops"]
     return sw, actors
 
 
@@ -338,7 +360,8 @@ def execute_in_child(actors, granularity, decider, refs, repo_prefix, guard, max
                     ref = refs.get(json.dumps(ro, sort_keys=True))
                     if ref is not None and ref != r and "bad" not in r:
                         mismatches.append([i, k, r, ref])
-                check_invariants(i, k, installed)
+                if not op.get("noref") or k % 25 == 0:
+                    check_invariants(i, k, installed)
         return run
 
     with runner23._Installed(term):
@@ -442,7 +465,22 @@ def sweep_pairs():
     def ob(cls, s, how="ctor"):
         return {"op": "observe", "cls": cls, "how": how, "s": s}
 
+    b30 = "CVSS:3.0/AV:L/AC:H/PR:H/UI:R/S:C/C:H/I:H/A:H"
+    b31 = "CVSS:3.1" + b30[8:]
+    b31b = "CVSS:3.1/AV:N/AC:L/PR:N/UI:N/S:C/C:L/I:N/A:N"
+    b2a, b2b = "AV:N/AC:L/Au:N/C:P/I:P/A:P", "AV:L/AC:H/Au:M/C:C/I:N/A:C"
+    b4a = "CVSS:4.0/AV:L/AC:H/AT:P/PR:L/UI:P/VC:H/VI:H/VA:L/SC:H/SI:H/SA:H"
+
+    def cmp(cls, x, y):
+        return {"op": "cmp", "a": {"cls": cls, "how": "ctor", "s": x}, "b": {"cls": cls, "how": "ctor", "s": y}}
+
     return [
+        # plain base-only vectors (what most callers construct) against their closest siblings
+        ("v3.0-base-only-vs-v3.1-same-body", ob("CVSS3", b30), ob("CVSS3", b31)),
+        ("v3-base-only-vs-v3-base-only", ob("CVSS3", b31), ob("CVSS3", b31b)),
+        ("v3-same-vector-twice-vs-sibling", cmp("CVSS3", b30, b30), ob("CVSS3", b31b)),
+        ("v2-base-only-vs-v2-base-only", ob("CVSS2", b2a), ob("CVSS2", b2b)),
+        ("v4-base-only-vs-v4-base-only", ob("CVSS4", b4a), ob("CVSS4", v4b)),
         ("v3.1-vs-v3.0-same-body", ob("CVSS3", v31), ob("CVSS3", v30)),
         ("v3-vs-v3-other-metrics", ob("CVSS3", v31), ob("CVSS3", v31b)),
         ("v2-vs-v2", ob("CVSS2", v2a), ob("CVSS2", v2b)),
@@ -458,12 +496,13 @@ def sweep_pairs():
 class StateEngine(object):
     prop = PROP
 
-    def __init__(self, seed=0, force_threads=None, mode="random", granularity="line", stride=1, offset=0):
+    def __init__(self, seed=0, force_threads=None, mode="random", granularity="line", stride=1, offset=0, coarse=1):
         self.seed = seed
         self.mode = mode
         self.sweep_granularity = granularity
         self.sweep_stride = max(1, stride)
-        self.sweep_offset = offset % max(1, stride)
+        self.sweep_offset = offset
+        self.sweep_coarse = max(1, coarse)
         self._sweep_plan = {}
         self.repo = core.repo_dir()
         self.prefix = os.path.join(self.repo, "cvss") + os.sep
@@ -517,54 +556,73 @@ class StateEngine(object):
 
     # ---- single-pre-emption sweep ------------------------------------------------------
     def sweep_plan(self, granularity, pairs=None):
-        """For every (pair, order): the number of pre-emption points N of the first op when it runs
-        alone (dry run). -> list of (pair_name, first_op, second_op, N); cases are all k in 1..N."""
+        """For every (pair, order): N_fine = number of pre-emption points of the *construction* of the
+        first op (dry run of the construct-only variant), N = points of the whole first op when it runs
+        alone. -> list of (name, first_op, second_op, N_fine, N)."""
         key = (granularity, tuple(pairs) if pairs else None)
         if key in self._sweep_plan:
             return self._sweep_plan[key]
         self._lazy()
+
+        def points_alone(first, second):
+            actors = [{"env": dict(DEFAULT_ENV), "ops": [first]}, {"env": dict(DEFAULT_ENV), "ops": [second]}]
+            refs = self.refs_for(actors)
+            rep = fork_run(lambda: execute_in_child(actors, granularity, sched.ReplayDecider([[0, 0]]), refs,
+                                                    self.prefix, self.guard, 300000))
+            if "child_error" in rep or rep.get("errors"):
+                raise HarnessError("sweep dry run failed: %s" % (rep.get("child_error") or rep.get("errors")))
+            # steps 1..N belong to the first op (thread 0 runs alone until it exits at step N+1)
+            return rep["taken"][1][0] - 1 if len(rep["taken"]) > 1 else 0
+
         plan = []
         for name, a, b in sweep_pairs():
             if pairs and name not in pairs:
                 continue
             for first, second, tag in ((a, b, "A-preempted-by-B"), (b, a, "B-preempted-by-A")):
-                actors = [{"env": dict(DEFAULT_ENV), "ops": [first]}, {"env": dict(DEFAULT_ENV), "ops": [second]}]
-                refs = self.refs_for(actors)
-                rep = fork_run(lambda: execute_in_child(actors, granularity, sched.ReplayDecider([[0, 0]]), refs,
-                                                        self.prefix, self.guard, 300000))
-                if "child_error" in rep or rep.get("errors"):
-                    raise HarnessError("sweep dry run failed: %s" % (rep.get("child_error") or rep.get("errors")))
-                # steps 1..N belong to the first op (thread 0 runs alone until it exits at step N+1)
-                n_first = rep["taken"][1][0] - 1 if len(rep["taken"]) > 1 else 0
-                plan.append((name + ":" + tag, first, second, n_first))
+                n_total = points_alone(first, second)
+                n_fine = n_total
+                if first["op"] == "observe":
+                    ctor = {"op": "new" if first.get("how") != "rh" else "rh", "cls": first["cls"], "s": first["s"], "noref": True}
+                    n_fine = min(n_total, points_alone(ctor, second))
+                plan.append((name + ":" + tag, first, second, n_fine, n_total))
         self._sweep_plan[key] = plan
         return plan
 
-    def sweep_size(self, granularity=None, pairs=None, stride=None, offset=None):
+    def sweep_points(self, granularity=None, pairs=None, stride=None, offset=None, coarse=None):
+        """The enumerated cases: [(plan index, k)]. Inside the construction every stride-th point,
+        inside the accessor part every (stride * coarse)-th."""
         granularity = granularity or self.sweep_granularity
         stride = stride or self.sweep_stride
         offset = self.sweep_offset if offset is None else offset
-        return sum(max(0, (n - offset + stride - 1) // stride) for _, _, _, n in self.sweep_plan(granularity, pairs))
+        coarse = self.sweep_coarse if coarse is None else coarse
+        key = ("points", granularity, tuple(pairs) if pairs else None, stride, offset, coarse)
+        if key in self._sweep_plan:
+            return self._sweep_plan[key]
+        pts = []
+        for pi, (name, first, second, n_fine, n_total) in enumerate(self.sweep_plan(granularity, pairs)):
+            for k in range(1 + offset % stride, n_fine + 1, stride):
+                pts.append((pi, k))
+            step2 = stride * coarse
+            for k in range(n_fine + 1 + offset % step2, n_total + 1, step2):
+                pts.append((pi, k))
+        self._sweep_plan[key] = pts
+        return pts
 
-    def run_sweep(self, index, granularity=None, pairs=None, stride=None, offset=None):
+    def sweep_size(self, **kw):
+        return len(self.sweep_points(**kw))
+
+    def run_sweep(self, index, granularity=None, pairs=None):
         granularity = granularity or self.sweep_granularity
-        stride = stride or self.sweep_stride
-        offset = self.sweep_offset if offset is None else offset
         plan = self.sweep_plan(granularity, pairs)
-        i = index
-        for name, first, second, n in plan:
-            cnt = max(0, (n - offset + stride - 1) // stride)
-            if i < cnt:
-                k = 1 + offset + i * stride
-                actors = [{"env": dict(DEFAULT_ENV), "ops": [first]}, {"env": dict(DEFAULT_ENV), "ops": [second]}]
-                trace = {"engine": "state", "sweep_case": [name, granularity, k, n], "hashseed": self.hashseed,
-                         "actors": actors, "granularity": granularity, "schedule": [[0, 0], [k, 1]]}
-                out = self._run(trace, sched.ReplayDecider(trace["schedule"]))
-                out["counters"]["sweep.single_preemption_runs"] = 1
-                out["counters"]["sweep.single_preemption_runs.%s" % granularity] = 1
-                return out
-            i -= cnt
-        raise HarnessError("sweep index %d out of range" % index)
+        pi, k = self.sweep_points(granularity=granularity, pairs=pairs)[index]
+        name, first, second, n_fine, n_total = plan[pi]
+        actors = [{"env": dict(DEFAULT_ENV), "ops": [first]}, {"env": dict(DEFAULT_ENV), "ops": [second]}]
+        trace = {"engine": "state", "sweep_case": [name, granularity, k, n_fine, n_total], "hashseed": self.hashseed,
+                 "actors": actors, "granularity": granularity, "schedule": [[0, 0], [k, 1]]}
+        out = self._run(trace, sched.ReplayDecider(trace["schedule"]))
+        out["counters"]["sweep.single_preemption_runs"] = 1
+        out["counters"]["sweep.single_preemption_runs.%s" % granularity] = 1
+        return out
 
     def run_one(self, index):
         self._lazy()
@@ -646,6 +704,7 @@ class StateEngine(object):
                     "fault.ambient_context_nondefault": 1 if nondefault_env else 0,
                     "fault.rejected_call_before_probe": 1 if rejected_before_probe else 0,
                     "fault.setctx_between_ops": sum(1 for a in actors for op in a["ops"] if op["op"] == "setctx"),
+                    "fault.long_history_before_probe": 1 if any(op.get("noref") for a in actors for op in a["ops"]) else 0,
                     "cleanroom_refs": len(refs)}
         for f, c in rep["same_func"].items():
             counters["probe.preempted_while_other_thread_in_same_function:" + f] = c
@@ -656,7 +715,8 @@ class StateEngine(object):
                 "sets": {"interleavings": [int(rep["switch_digest"][:15], 16)] if rep["switches"] else [],
                          "states": [int(runner23.digest(s)[:15], 16) for s in rep["states"]]},
                 "sample": {"threads": n, "granularity": gran, "envs": [a["env"] for a in actors],
-                           "ops": [[short_op(op) for op in a["ops"]][:8] for a in actors],
+                           "ops": [[short_op(op) for op in a["ops"] if not op.get("noref")][:8] for a in actors],
+                           "filler_constructions": sum(1 for a in actors for op in a["ops"] if op.get("noref")),
                            "schedule_head": rep["taken"][:12], "steps": rep["steps"], "switches": rep["switches"]},
                 "result": rep}
 
@@ -752,5 +812,5 @@ def clip(res, field, other=None):
     return s if len(s) < 260 else s[:257] + "..."
 
 
-def make_engine(seed=0, force_threads=None, mode="random", granularity="line", stride=1, offset=0):
-    return StateEngine(seed, force_threads, mode, granularity, stride, offset)
+def make_engine(seed=0, force_threads=None, mode="random", granularity="line", stride=1, offset=0, coarse=1):
+    return StateEngine(seed, force_threads, mode, granularity, stride, offset, coarse)
